@@ -106,6 +106,7 @@ S_F = "\0F"
 S_R = "\0R"
 S_NI = "\0NI"
 S_SUPER = "\0SUPER"
+S_TYPE = "\0TYPE"
 
 
 class SymExec:
@@ -145,6 +146,15 @@ class SymExec:
             return
         if isinstance(st, ast.AnnAssign) and isinstance(st.target, ast.Name) and st.value is not None:
             env[st.target.id] = self.expr(st.value, env)
+            return
+        # `x, y = e1, e2` (round 4): the right-hand side is evaluated completely, left to right, before anything is bound
+        if (isinstance(st, ast.Assign) and len(st.targets) == 1 and isinstance(st.targets[0], (ast.Tuple, ast.List))
+                and all(isinstance(t, ast.Name) for t in st.targets[0].elts)):
+            vals = self.expr(st.value, env)
+            if not isinstance(vals, tuple) or len(vals) != len(st.targets[0].elts):
+                self.fail(f"unpacking of something that is not a literal tuple of the same length: {ast.unparse(st)[:80]!r}")
+            for t, v in zip(st.targets[0].elts, vals):
+                env[t.id] = v
             return
         if isinstance(st, ast.If):
             self.block(st.body if self.truth(self.expr(st.test, env), st.test) else st.orelse, env)
@@ -250,6 +260,31 @@ def unique_binding(mod: ast.Module, name: str) -> None:
         raise TranslationError(f"{name}: bound {n} times at module level")
 
 
+def builtins_intact(mod: ast.Module, fn: ast.FunctionDef, names: Tuple[str, ...], what: str) -> None:
+    """the builtins whose meaning the executor assumes (`type`, `issubclass`, `isinstance`) are rebound neither at module level
+    nor anywhere inside `fn` (parameter, local, nested def, import, global/nonlocal)"""
+    def bound_in(node, deep: bool):
+        out = set()
+        it = ast.walk(node) if deep else [x for st in node.body for x in ([st] if isinstance(st, (ast.FunctionDef, ast.AsyncFunctionDef, ast.ClassDef)) else ast.walk(st))]
+        for n in it:
+            if isinstance(n, ast.Name) and isinstance(n.ctx, (ast.Store, ast.Del)):
+                out.add(n.id)
+            elif isinstance(n, (ast.FunctionDef, ast.AsyncFunctionDef, ast.ClassDef)):
+                out.add(n.name)
+            elif isinstance(n, ast.arg):
+                out.add(n.arg)
+            elif isinstance(n, ast.alias):
+                out.add((n.asname or n.name).split(".")[0])
+            elif isinstance(n, (ast.Global, ast.Nonlocal)):
+                out.update(n.names)
+            elif isinstance(n, ast.ExceptHandler) and n.name:
+                out.add(n.name)
+        return out
+    hit = (bound_in(mod, False) | bound_in(fn, True)) & set(names)
+    if hit:
+        raise TranslationError(f"{what}: builtin(s) {sorted(hit)} are rebound")
+
+
 def _single_inner(fn: ast.FunctionDef, what: str) -> ast.FunctionDef:
     """the decorator shape `def outer(f): @wraps(f) def inner(...): ...; return inner`"""
     inner = [s for s in fn.body if isinstance(s, ast.FunctionDef)]
@@ -275,6 +310,7 @@ def extract_type_matched(mod: ast.Module) -> Tuple[bool, bool, bool]:
     """run the inner function under the four valuations of (issubclass(type(other), type(self)), issubclass(type(self), type(other)))"""
     fn = unique_func(mod, "type_matched")
     inner = _single_inner(fn, "type_matched")
+    builtins_intact(mod, fn, ("type", "issubclass", "isinstance"), "type_matched")
     method = fn.args.args[0].arg
     ps, po = [a.arg for a in inner.args.args]
     out = {}
@@ -283,10 +319,16 @@ def extract_type_matched(mod: ast.Module) -> Tuple[bool, bool, bool]:
             def atom(node, ev, o_sub_s=o_sub_s, s_sub_o=s_sub_o):
                 if isinstance(node, ast.Call) and isinstance(node.func, ast.Name) and not node.keywords:
                     f, args = node.func.id, node.args
+                    if f == "type" and len(args) == 1:
+                        # the class of an operand, as a value (round 4: may be hoisted into a local — `type(x)` is pure)
+                        x = ev(args[0])
+                        if x in (S_SELF, S_OTHER):
+                            return (S_TYPE, x)
+                        raise TranslationError(f"type_matched: type() of something that is not an operand: {ast.unparse(node)}")
                     def type_of(x):
-                        x = uncast(x)
-                        if isinstance(x, ast.Call) and isinstance(x.func, ast.Name) and x.func.id == "type" and len(x.args) == 1:
-                            return ev(x.args[0])
+                        v = ev(x)
+                        if isinstance(v, tuple) and len(v) == 2 and v[0] == S_TYPE:
+                            return v[1]
                         return None
                     pair = None
                     if f == "issubclass" and len(args) == 2:
@@ -631,13 +673,76 @@ def extract_route(ev: ast.Module, lark_text: str) -> Dict[str, Dict[str, str]]:
     if base is None:
         raise TranslationError("base_functions not found")
 
+    def is_table(node):
+        return (isinstance(node, ast.Dict) and node.keys
+                and all(isinstance(k, ast.Constant) and str(k.value).startswith("relation_") for k in node.keys))
+
+    def module_constant(name, what):
+        """round 4: a table hoisted into a module-level constant.  Followed only when the name is a read-only constant: bound
+        exactly once in the whole module — by a module-level assignment of a dict literal — and every other occurrence of
+        the name anywhere in the module is a plain read by subscription `NAME[...]` (so no mutation through item assignment,
+        `del`, a method such as update/pop/setdefault, aliasing, or passing the dict to other code; no shadowing local/parameter;
+        no `global`)."""
+        binding = None
+        for st in ev.body:
+            tgt = st.target if isinstance(st, ast.AnnAssign) else (st.targets[0] if isinstance(st, ast.Assign) and len(st.targets) == 1 else None)
+            if isinstance(tgt, ast.Name) and tgt.id == name and st.value is not None:
+                if binding is not None:
+                    raise TranslationError(f"{what}: {name} is bound more than once at module level")
+                binding = st
+        if binding is None or not is_table(binding.value):
+            return None
+        target = binding.target if isinstance(binding, ast.AnnAssign) else binding.targets[0]
+        reads = set()
+        for node in ast.walk(ev):
+            if isinstance(node, ast.Subscript) and isinstance(node.ctx, ast.Load) and isinstance(node.value, ast.Name) and node.value.id == name:
+                reads.add(id(node.value))
+        for node in ast.walk(ev):
+            if isinstance(node, ast.Name) and node.id == name and node is not target and id(node) not in reads:
+                raise TranslationError(f"{what}: {name} is used otherwise than by `{name}[...]` (line {node.lineno}) — not followed as a constant")
+            if isinstance(node, (ast.Global, ast.Nonlocal)) and name in node.names:
+                raise TranslationError(f"{what}: {name} is declared global/nonlocal (line {node.lineno})")
+            if isinstance(node, (ast.FunctionDef, ast.AsyncFunctionDef, ast.ClassDef)) and node.name == name:
+                raise TranslationError(f"{what}: {name} is also a def/class (line {node.lineno})")
+            if isinstance(node, ast.arg) and node.arg == name:
+                raise TranslationError(f"{what}: {name} is also a parameter (line {node.lineno})")
+            if isinstance(node, ast.alias) and (node.asname or node.name).split(".")[0] == name:
+                raise TranslationError(f"{what}: {name} is also imported (line {node.lineno})")
+            if isinstance(node, ast.ExceptHandler) and node.name == name:
+                raise TranslationError(f"{what}: {name} is also an exception variable (line {node.lineno})")
+            if isinstance(node, ast.Attribute) and node.attr == name:
+                # `evaluation._RELATION_OPERATORS[...] = ...` / `globals()`-free spelling of a mutation through the module object
+                raise TranslationError(f"{what}: attribute access .{name} (line {node.lineno})")
+        # ... and no other module of the package mentions the name (`evaluation.NAME[...] = ...`, `from .evaluation import NAME`)
+        from .common import REPO
+        for other in sorted((REPO / "src/celpy").glob("*.py")):
+            if other.name != "evaluation.py" and re.search(rf"\b{re.escape(name)}\b", other.read_text()):
+                raise TranslationError(f"{what}: {name} is mentioned in {other.name} — not followed as a constant")
+        return binding.value
+
     def rule_table(clsname):
         cls = find_class(ev, clsname)
         fn = find_func(cls.body, "relation")
+        # the table is what is *indexed* to get the operator's name: `{...}[<node>.data]` or `CONSTANT[<node>.data]`
+        found = []
         for node in ast.walk(fn):
-            if isinstance(node, ast.Dict) and node.keys and all(isinstance(k, ast.Constant) and str(k.value).startswith("relation_") for k in node.keys):
-                return {k.value: ast.literal_eval(v) for k, v in zip(node.keys, node.values)}
-        raise TranslationError(f"{clsname}.relation: op-name table not found")
+            if isinstance(node, ast.Subscript) and isinstance(node.ctx, ast.Load):
+                tbl = None
+                if is_table(node.value):
+                    tbl = node.value
+                elif isinstance(node.value, ast.Name):
+                    tbl = module_constant(node.value.id, f"{clsname}.relation")
+                if tbl is not None:
+                    found.append(tbl)
+        if not found:
+            # a literal that is bound to a local first (as before round 4: the first such literal in the method)
+            found = [node for node in ast.walk(fn) if is_table(node)][:1]
+        tables = [{k.value: ast.literal_eval(v) for k, v in zip(t.keys, t.values)} for t in found]
+        if not tables:
+            raise TranslationError(f"{clsname}.relation: op-name table not found")
+        if any(t != tables[0] for t in tables[1:]):
+            raise TranslationError(f"{clsname}.relation: several different op-name tables are indexed")
+        return tables[0]
     out = {}
     for runner, clsname in (("I", "Evaluator"), ("C", "Phase1Transpiler")):
         tbl = rule_table(clsname)
